@@ -572,7 +572,12 @@ fn rewrite_tuple_pat(
     }
     let mut pat_vec: Vec<_> = pats.iter().map(TuplePatField::Pat).collect();
 
-    let wildcard_suffix_len = count_wildcard_suffix_len(context, &pat_vec, span, shape);
+    // A tuple pattern can hold only one `..`: there is no suffix to condense when it has one.
+    let wildcard_suffix_len = if pat_vec.iter().any(|pat| pat.is_dotdot()) {
+        0
+    } else {
+        count_wildcard_suffix_len(context, &pat_vec, span, shape)
+    };
     let (pat_vec, span) = if context.config.condense_wildcard_suffixes() && wildcard_suffix_len >= 2
     {
         let new_item_count = 1 + pat_vec.len() - wildcard_suffix_len;
